@@ -372,6 +372,10 @@ var c10fixed = []string{
 	"global (L, G)\nG = G + 1\nglobal H\nH = G * 2\nq := func() { return H + G }\nG = 0\nq()",
 	"global L\na := -0.0\nb := 0.0\nstring(b)\nc := 0.0 * -1.0\n[string(a), string(b), string(c), 1 / 2.0]",
 	"global L\nf := 1.5\ng := 1.5\nh := 15u\ni := 15\nj := 'a'\nk := 97\n[f, g, h, i, j, k, typeName(h), typeName(j)]",
+	// literal constants of an earlier fragment whose names are re-used for parameters, block locals, loop and catch variables later
+	"global L\nconst n = 10\nconst s = \"c\"\ndouble := func(n) { return n * 2 }\nblk := func() {\n  if true {\n    n := 3\n    return n + 1\n  }\n  return 0\n}\nloopsum := func() {\n  t := 0\n  for n in [1, 2] {\n    t += n\n  }\n  return t\n}\ncatcher := func() {\n  try {\n    throw \"x\"\n  } catch s {\n    return s.Message\n  }\n  return 0\n}\n[double(4), blk(), loopsum(), catcher(), n, s]",
+	"global L\nconst (\n  a = iota\n  b\n  c\n)\nf := func(a, ...c) { return [a, b, c] }\ng := func() {\n  b := \"inner\"\n  return func() { return [a, b, c] }\n}\n[f(7, 8), g()(), a + b + c]",
+	"global L\nconst k = 2\nx := 5\nif x > k {\n  k := 100\n  L(k + x)\n}\nfor k := 0; k < 2; k++ {\n  L(k)\n}\nh := func(x) { return x * k }\n[h(3), k]",
 	"global L\nx := 1\nx := 2\nx",
 	"global L\nx := 1\ny := x / 0\nz := 5\nz",
 }
